@@ -549,17 +549,26 @@ impl MorselAggregateExec {
             source.total_work(),
             rayon::current_num_threads(),
         );
+        // The accumulators are zero-initialised slots with no NULL key slot and no
+        // "seen" bit: a NULL group key, or a SUM/AVG input column with NULLs (a group
+        // whose inputs are all NULL must answer NULL, not 0 or 0/0), cannot be
+        // represented. Both are only visible in the decoded data, so the scan bails
+        // out and the caller falls back to the generic morsel path, which handles
+        // them — every other layout of the same rows answers these queries.
+        let bail = std::sync::atomic::AtomicBool::new(false);
         let results: Vec<Result<()>> = (0..num_threads)
             .into_par_iter()
             .map(|_| {
                 while let Some(work) = source.get_work() {
+                    if bail.load(Ordering::Relaxed) {
+                        return Ok(());
+                    }
                     let batches = source.read_row_group(&work)?;
                     for batch in batches {
                         let key_arr = batch.column(key_pos);
                         if key_arr.null_count() > 0 {
-                            return Err(QueryError::Execution(
-                                "dense agg: null group keys unsupported".into(),
-                            ));
+                            bail.store(true, Ordering::Relaxed);
+                            return Ok(());
                         }
                         let keys_i64: Vec<i64> = match key_arr.data_type() {
                             DataType::Int64 => key_arr
@@ -623,6 +632,10 @@ impl MorselAggregateExec {
                                         })?;
                                     let vals = arr.values();
                                     let has_nulls = arr.null_count() > 0;
+                                    if has_nulls {
+                                        bail.store(true, Ordering::Relaxed);
+                                        return Ok(());
+                                    }
                                     for (r, &k) in keys_i64.iter().enumerate() {
                                         if has_nulls && arr.is_null(r) {
                                             continue;
@@ -643,6 +656,10 @@ impl MorselAggregateExec {
                                         })?;
                                     let vals = arr.values();
                                     let has_nulls = arr.null_count() > 0;
+                                    if has_nulls {
+                                        bail.store(true, Ordering::Relaxed);
+                                        return Ok(());
+                                    }
                                     for (r, &k) in keys_i64.iter().enumerate() {
                                         if has_nulls && arr.is_null(r) {
                                             continue;
@@ -681,6 +698,9 @@ impl MorselAggregateExec {
             .collect();
         for r in results {
             r?;
+        }
+        if bail.load(Ordering::Relaxed) {
+            return Ok(None);
         }
         if timing {
             eprintln!(
